@@ -357,7 +357,7 @@ theorem handleOnConnection (h : KInv cfg k) (fd : Nat) (l r : SockAddr) (s : Seg
             subst ht'
             exact Tcb.caps_handleEstablished s hc
           split
-          · exact h1.emit _ _ rfl
+          · exact h1.emit _ _ (Tcb.replySeg_facts cfg _ _ _ _).1
           · exact h1
 
 theorem deliver (h : KInv cfg k) (p : Packet) : KInv cfg (Kernel.deliver cfg k p) := by
@@ -459,22 +459,18 @@ theorem persistProbe (h : KInv cfg k) (fd : Nat) : KInv cfg (k.persistProbe cfg 
       dsimp only
       have hc := h.tcb hs ht
       split
-      · exact h
-      · rename_i hmss
-        split
+      · apply h.setSock
+        intro t' ht'
+        simp only [Option.some.injEq] at ht'
+        subst ht'
+        exact hc
+      · apply KInv.emit
         · apply h.setSock
           intro t' ht'
           simp only [Option.some.injEq] at ht'
           subst ht'
           exact hc
-        · apply KInv.emit_sized
-          · apply h.setSock
-            intro t' ht'
-            simp only [Option.some.injEq] at ht'
-            subst ht'
-            exact hc
-          · simp only [Tcb.probeSeg, List.length_take]
-            omega
+        · rfl
 
 theorem checkRetx0 (h : KInv cfg k) : KInv cfg (Kernel.checkRetx0 cfg k) := by
   unfold Kernel.checkRetx0
